@@ -52,8 +52,8 @@ int_t VH_WORKINIT(int_t n, int_t panel_size, int_t **iworkptr, VH_REAL **dworkpt
     int_t nd = n * panel_size + SUPERLU_MAX(2 * n, (maxsuper + rowblk) * panel_size);
     int_t i;
     ++vh_workinit_calls;
-    *iworkptr = (int_t *)malloc(ni * sizeof(int_t));
-    for (i = 0; i < ni; ++i) (*iworkptr)[i] = 0; /* intCalloc */
+    *iworkptr = (int_t *)calloc(ni, sizeof(int_t));   /* intCalloc */
+    (void)i;
     *dworkptr = (VH_REAL *)malloc(nd * sizeof(VH_REAL));
     return 0;
 }
